@@ -1,7 +1,9 @@
 #!/usr/bin/env python3
 """Sensitivity scan over ALL checks (development aid): for every function some check analyses, generate the syntactic
 mutants of tools/mutscan.py and run every check that lists the function in its evidence; print the mutants NO check reports.
-usage: python3-vt tools/mutscan_all.py [max_per_function] [module-substring]"""
+usage: python3-vt tools/mutscan_all.py [max_per_function] [module-substring] [coverage.json]
+With a coverage.py JSON report (of the repository's own test suite) only mutants on lines the suite never executes are
+generated (deletions included): each of them passes the tests by construction, so a survivor is a real blind spot."""
 import json, multiprocessing, os, shutil, sys, tempfile, ast
 
 V = os.path.dirname(os.path.dirname(os.path.abspath(__file__)))
@@ -42,6 +44,7 @@ def run_one(args):
 def main():
     cap = int(sys.argv[1]) if len(sys.argv) > 1 else 40
     only = sys.argv[2] if len(sys.argv) > 2 else ''
+    cov = json.load(open(sys.argv[3]))['files'] if len(sys.argv) > 3 else None
     owners = {}
     for f in sorted(os.listdir(os.path.join(V, 'evidence'))):
         if f.endswith('.json'):
@@ -59,8 +62,16 @@ def main():
         for desc, mut in mutscan.mutants(fn.node):
             if n >= cap:
                 break
-            if ' delete ' in desc or 'LOGGER' in desc:
+            if 'LOGGER' in desc:
                 continue
+            if cov is None:
+                if ' delete ' in desc:
+                    continue
+            else:
+                fc = cov.get(fn.module.relpath)
+                line = int(desc.split()[0][1:])
+                if fc is None or line not in set(fc['missing_lines']):
+                    continue
             s0, s1 = fn.node.lineno - 1, fn.node.end_lineno
             if fn.node.decorator_list:
                 s0 = min(d.lineno for d in fn.node.decorator_list) - 1
